@@ -567,7 +567,7 @@ mod verif_pdu_layout {
     }}
 
     // ---------------- Error::new: RFC 8210 5.11 layout (bounded sizes: Vec code) ----------------
-    //@harness pdu_error_new_kb Kb fn=Error::new bound="encapsulated PDU <= 32 octets, text <= 16 octets" timeout=900
+    //@harness pdu_error_new_kb Kb fn=Error::new bound="encapsulated PDU <= 32 octets, text <= 16 octets" timeout=900 thorough
     verif_harness!{ pdu_error_new_kb; |version: u8, code: u16, pdu: [u8; 32], n: usize, text: [u8; 16], m: usize, i: usize, j: usize| {
         assume(n <= 32 && m <= 16);
         let e = Error::new(version, code, &pdu[..n], &text[..m]);
